@@ -79,7 +79,7 @@ func (e *Env) build(p Pair, side int, base string, sc *c10.Script) (evalFn, erro
 	case "jwt_jwk":
 		return jwtJWK(p, side, base, e.Keys)
 	case "jwt_finalizer":
-		return jwtFinalizer(p, side, e.KeyStore, e.KeyStore2)
+		return jwtFinalizer(p, side, e.KeyStore, e.KeyStore2, sc)
 	case "cc_finalizer":
 		return clientCredentials(p, side, base, false, sc)
 	case "cc_strategy":
